@@ -1187,6 +1187,9 @@ def replay(chk, rep):
     if not case:
         print(json.dumps(rep, indent=1))
         return 0
+    for k in ("kind", "part", "why", "operation", "step", "minimal_history", "specification"):
+        if k in rep:
+            print("%s: %s" % (k, rep[k]))
     c = {"fa": case["documents"][0], "fb": case["documents"][1], "ba": case["bases"][0], "bb": case["bases"][1],
          "flags": case["flags"].replace("v", "") + "v", "ops": case.get("concrete_ops") or case["ops"]}
     impl = run_cases(drv, [c])[0]
